@@ -13,6 +13,29 @@ def emit(event, **fields):
     TRACE.append(fields)
 
 
+# Schedule forcing (used to replay a schedule chosen by the model checker): CHOOSER(site, collection) names
+# the element the algorithm has to take next; force() removes all other elements from the set just before the
+# algorithm's own pop and restore() puts them back right after it.
+CHOOSER = None
+
+
+def force(site, S):
+    if CHOOSER is None:
+        return None
+    x = CHOOSER(site, S)
+    if x is None:
+        return None
+    rest = [y for y in S if y != x]
+    for y in rest:
+        S.discard(y)
+    return rest
+
+
+def restore(S, rest):
+    if rest:
+        S.update(rest)
+
+
 def take():
     """Returns the events recorded so far and clears the buffer."""
     result = TRACE[:]
